@@ -1061,6 +1061,10 @@ class XmlDocument(SubXmlBase):
                     if member is None:
                         continue
 
+            # XmlAttribute and XmlData members are not child elements.
+            if issubclass(member, (XmlAttribute, XmlData)):
+                continue
+
             member_attrs = self.get_cls_attrs(member)
             mo = member_attrs.max_occurs
             if mo > 1:
